@@ -67,14 +67,20 @@ func (p *VipnodePool) CloseRemote(remote jsonrpc2.Service) error {
 	p.mu.Lock()
 	defer p.mu.Unlock()
 
-	nodeID, ok := p.remoteNodeLookup[remote]
-	if !ok {
+	if _, ok := p.remoteNodeLookup[remote]; !ok {
 		// Nothing to clean up
 		return nil
 	}
 
 	delete(p.remoteNodeLookup, remote)
-	delete(p.remoteHosts, nodeID)
+	// Only unregister the hosts that are still served by this connection: a
+	// host that reconnected is registered on its newer connection, and more
+	// than one host may have registered over the closing one.
+	for hostID, service := range p.remoteHosts {
+		if service == remote {
+			delete(p.remoteHosts, hostID)
+		}
+	}
 
 	return nil
 }
